@@ -1,8 +1,88 @@
 import AFV.Driver.Proto
+import AFV.Spec.TileShapes
 namespace AFV.Driver.C10
-open Lean AFV.Proto
+open Lean AFV.Proto AFV.TileShapes
 
-/-- Handler for property C10 requests (stub: not implemented yet). -/
-def handle (_req : Json) : Json := err "unimplemented"
+/-- coverage only (not part of the model): which branch of `_try_admit` each step of the
+coarseness-1 imperfect loop and the final `_try_admit(outer)` take — `[factor-hit, tiles-hit, new]` counts. -/
+private def admitBranches (inner outer : Nat) : List Nat :=
+  let step (acc : St × Nat × Nat × Nat) (n : Nat) : St × Nat × Nat × Nat :=
+    let (st, a, b, c) := acc
+    let st' := tryAdmit outer st n
+    if st.factors.contains n then (st', a + 1, b, c)
+    else if st.nTiles.contains (ceilDiv outer n) then (st', a, b + 1, c)
+    else (st', a, b, c + 1)
+  let (_, a, b, c) := (((List.range' 1 (outer / inner)).map (· * inner)) ++ [outer]).foldl step
+    ({ factors := [], nTiles := [] }, 0, 0, 0)
+  [a, b, c]
+
+/-- all tuples in `[1..n]^len` (brute-force domain for the chain counter) -/
+private def tuples (n : Nat) : Nat → List (List Nat)
+  | 0 => [[]]
+  | len + 1 => (List.range' 1 n).flatMap (fun s => (tuples n len).map (s :: ·))
+
+private def boolList? (j : Json) : Option (List Bool) := do
+  let a ← getArr? j
+  a.toList.mapM getBool?
+
+private def pair? (j : Json) : Option (Nat × Nat) := do
+  let a ← getArr? j
+  if a.size != 2 then none else
+  let x ← getNat? a[0]!
+  let y ← getNat? a[1]!
+  pure (x, y)
+
+/-- ops:
+  {"op":"cands","imp":b,"inner":i,"outer":o,"cn":p,"cd":q[,"brute":true][,"trace":true]}
+        → {"model":[…],"spec":[…][,"brute":[…]][,"branches":[a,b,c]]}
+          spec = perfectSpec (imp=false) / imperfectRequired (imp=true)
+  {"op":"factorize","n":n}               → {"model":[…],"spec":[…]}      spec = brute-force divisors
+  {"op":"count","n":n,"pat":[b,…][,"brute":true]}
+        → {"model":c,"chains":len[,"valid":number of tuples in [1..n]^(len-1) passing validChain]}
+  {"op":"arith","pairs":[[a,b],…],"sqrts":[n,…]}
+        → {"ceildiv":[…],"round":[…],"ceilsqrt":[…]}                     (float precondition check)
+-/
+def handle (req : Json) : Json :=
+  match (field? req "op").bind getStr? with
+  | some "cands" =>
+    match (field? req "imp").bind getBool?, (field? req "inner").bind getNat?,
+          (field? req "outer").bind getNat?, (field? req "cn").bind getNat?,
+          (field? req "cd").bind getNat? with
+    | some imp, some inner, some outer, some cn, some cd =>
+      if inner = 0 || outer = 0 || cd = 0 then err "domain" else
+      let model := candidates imp inner outer cn cd
+      let spec := if imp then imperfectRequired inner outer else perfectSpec inner outer
+      let base := [("model", ofNatList model), ("spec", ofNatList spec)]
+      let base := if (field? req "brute").bind getBool? == some true && imp
+        then base ++ [("brute", ofNatList (imperfectRequiredBrute inner outer))] else base
+      let base := if (field? req "trace").bind getBool? == some true && imp
+        then base ++ [("branches", ofNatList (admitBranches inner outer))] else base
+      Json.mkObj base
+    | _, _, _, _, _ => err "malformed"
+  | some "factorize" =>
+    match (field? req "n").bind getNat? with
+    | some n => Json.mkObj [("model", ofNatList (factorize n)), ("spec", ofNatList (divisors n))]
+    | none => err "malformed"
+  | some "count" =>
+    match (field? req "n").bind getNat?, (field? req "pat").bind boolList? with
+    | some n, some pat =>
+      let base := [("model", ofNat (countFactorizations n pat)), ("chains", ofNat (chains n pat).length)]
+      let base := if (field? req "brute").bind getBool? == some true
+        then base ++ [("valid", ofNat ((tuples n (pat.length - 1)).filter (validChain n pat)).length)]
+        else base
+      Json.mkObj base
+    | _, _ => err "malformed"
+  | some "arith" =>
+    match (field? req "pairs").bind getArr?, (field? req "sqrts").bind natList? with
+    | some ps, some sq =>
+      match ps.toList.mapM pair? with
+      | some l =>
+        if l.any (fun p => p.2 = 0) then err "domain" else
+        Json.mkObj [("ceildiv", ofNatList (l.map (fun p => ceilDiv p.1 p.2))),
+                    ("round", ofNatList (l.map (fun p => roundHalfEven p.1 p.2))),
+                    ("ceilsqrt", ofNatList (sq.map ceilSqrt))]
+      | none => err "malformed"
+    | _, _ => err "malformed"
+  | _ => err "bad-op"
 
 end AFV.Driver.C10
